@@ -8,6 +8,10 @@ import (
 	"github.com/gobwas/ws"
 )
 
+// maxPayloadPrealloc is the biggest payload buffer ReadMessage allocates at
+// once relying on the frame length announced by the peer.
+const maxPayloadPrealloc = 1 << 20
+
 // Message represents a message from peer, that could be presented in one or
 // more frames. That is, it contains payload of all message fragments and
 // operation code of initial frame for this message.
@@ -43,7 +47,7 @@ func ReadMessage(r io.Reader, s ws.State, m []Message) ([]Message, error) {
 		return m, err
 	}
 	var p []byte
-	if h.Fin {
+	if h.Fin && h.Length <= maxPayloadPrealloc {
 		// No more frames will be read. Use fixed sized buffer to read payload.
 		p = make([]byte, h.Length)
 		// It is not possible to receive io.EOF here because Reader does not
@@ -51,7 +55,9 @@ func ReadMessage(r io.Reader, s ws.State, m []Message) ([]Message, error) {
 		// Thus we consistent here with io.Reader behavior.
 		_, err = io.ReadFull(&rd, p)
 	} else {
-		// Frame is fragmented, thus use ioutil.ReadAll behavior.
+		// Frame is fragmented, or announces a payload that big that we do not
+		// want to allocate a buffer for it before the data is really received;
+		// thus use ioutil.ReadAll behavior.
 		var buf bytes.Buffer
 		_, err = buf.ReadFrom(&rd)
 		p = buf.Bytes()
